@@ -464,4 +464,8 @@ def run(ctx):
         run.instance(R6, {"record": pp.short(adt6), "obligation": "no field beyond the base format is required to decode a stored record", "required today": sorted(req6), "base format": sorted(base6)}, held=not extra6)
         for name in extra6:
             run.finding(Finding(R6, adt6, "field `%s` of stored %s records is now required: a record written before the field existed (or without it) no longer decodes, the log iterator stops there without an error and every query / look-up silently misses the later entries" % (name, adt6.split("::")[-1]), site=""))
+    R7 = "C19.R7"
+    run.rule(R7, "a look-up by log id looks up the id the user typed: `txs -i <id>` and `export_proof -i <id>` do not cut the parsed id down to 32 bits", floor=2)
+    from .shared import cli_id_not_narrowed
+    cli_id_not_narrowed(ctx, R7, ("parse_txs_args", "parse_export_proof_args"))
     run.not_decided += ["stability of the sort"]
